@@ -89,7 +89,9 @@ ScopeInit ==
 \*   equal    stored v1, v1 offered                  ahead    stored v1, v2 offered
 \*   diverged stored v2, v2f offered                 badsig   stored v1, forged v2 offered
 \*   badref   stored v1, v2 offered whose rad/id is advertised but not signed
-DelStates == {"absent", "missing", "new", "behind", "equal", "ahead", "diverged", "badsig", "badref"}
+\*   idfork   stored v2, v2 offered, but the advertised rad/id diverges from the stored one
+\*            (Policy::Abort inside the application stage)
+DelStates == {"absent", "missing", "new", "behind", "equal", "ahead", "diverged", "badsig", "badref", "idfork"}
 DelSrv(st) ==
     CASE st \in {"absent", "missing"} -> Absent
       [] st \in {"new", "behind", "equal"} -> Honest("v1")
@@ -97,9 +99,10 @@ DelSrv(st) ==
       [] st = "diverged" -> Honest("v2f")
       [] st = "badsig"   -> [sig |-> [ver |-> "v2", fl |-> "forged"], rid |-> "i2", junk |-> "none"]
       [] st = "badref"   -> [sig |-> [ver |-> "v2", fl |-> "noId"], rid |-> "i2", junk |-> "none"]
+      [] st = "idfork"   -> [sig |-> [ver |-> "v2", fl |-> "ok"], rid |-> "i2f", junk |-> "none"]
 DelLoc(st) ==
     CASE st \in {"absent", "new"} -> NoSig
-      [] st \in {"behind", "diverged"} -> V("v2")
+      [] st \in {"behind", "diverged", "idfork"} -> V("v2")
       [] OTHER -> V("v1")
 DelOne(m, k, t, lo, sts) ==
     [sc  |-> Sc(m, 1..k, t, lo, {}, TRUE, {}, FALSE, {}),
